@@ -173,6 +173,9 @@ func runC05(rc *RunCtx) {
 		stopMode = ch.Intn("stopexec", 3) // Stop()/Restart() on a blocking Execute make no sense: another goroutine could call them, kept simple
 	}
 	when := ch.Pick("when", 2, 5, 2) // 0 early (tree still spawning), 1 right after the tree is complete, 2 later
+	if tree.exitEarly && when != 2 && ch.Intn("latewhenselfending", 2) == 0 {
+		when = 2 // a command that ends by itself is most interesting once it has: stop it "later"
+	}
 	// daemon style: the command itself exits once it has launched descendants that keep none of its output pipes; what
 	// is stopped later is a process group without its leader
 	if len(tree.children) > 0 && ch.Pick("daemonstyle", 4, 1) == 1 && startMode != 2 {
